@@ -16,6 +16,7 @@ fn main() {
     let code = match cmd {
         "C01" => props::c01::run(),
         "C19" => props::c19::run(),
+        "C20" => props::c20::run(),
         "c01-worker" => props::c01::worker(&args[2..]),
         "C02" => props::c02::run(),
         "C03" => props::c03::run(),
@@ -69,6 +70,7 @@ fn replay(path: &str) -> i32 {
         "C17" => props::c17::replay(&v["case"]),
         "C18" => props::c18::replay(&v["case"]),
         "C19" => props::c19::replay(&v["case"]),
+        "C20" => props::c20::replay(&v["case"]),
         _ => Err(format!("no replay for {pid}")),
     };
     match res {
